@@ -324,8 +324,14 @@ func (r *runner) plan(sys string, thorough bool, rng *rand.Rand) error {
 	}
 	one := sys == "fmap" || sys == "dup" || sys == "fmapch"
 	// (0) nothing at all: zero inputs / no items, every interleaving (both tiers)
-	if err := each(ZeroConfigs(sys), 150000, false); err != nil {
-		return err
+	for _, c := range ZeroConfigs(sys) {
+		if len(c.Items) > 3 { // 5 / 6 channel arguments: up to commutation of independent steps
+			if err := r.dfs(c, 5000, true); err != nil {
+				return err
+			}
+		} else if err := r.dfs(c, 150000, false); err != nil {
+			return err
+		}
 	}
 	// (a) every interleaving, unreduced, for the smallest configurations
 	full := 3000
@@ -374,6 +380,26 @@ func (r *runner) plan(sys string, thorough bool, rng *rand.Rand) error {
 		if thorough || sys == "joinsel" {
 			if err := each(SmallConfigs(sys, 3, 1, 1), por, true); err != nil {
 				return err
+			}
+		}
+		if sys == "joinsel" { // 5 and 6 channel arguments: one item on every input, unbuffered / capacity 1
+			for _, n := range []int{5, 6} {
+				for _, c := range SmallConfigs(sys, n, 1, 1) {
+					full, same := true, true
+					for i := range c.Items {
+						full = full && len(c.Items[i]) == 1
+						same = same && c.Caps[i] == c.Caps[0]
+					}
+					if full && same {
+						wide := 1500 // runs (the schedule space of 5 and 6 inputs is not exhausted in the quick tier)
+						if thorough {
+							wide = por
+						}
+						if err := r.dfs(c, wide, true); err != nil {
+							return err
+						}
+					}
+				}
 			}
 		}
 	}
